@@ -160,6 +160,12 @@ class ExprCanon(ast.NodeTransformer):
             return _loc(ast.BoolOp(op=ast.And(), values=parts), node)
         op = node.ops[0]
         l, r = node.left, node.comparators[0]
+        # `c in (E for v in X)` with a constant c  ==  any(E == c for v in X)   (membership in an iterator compares one by one)
+        if isinstance(op, (ast.In, ast.NotIn)) and isinstance(l, ast.Constant) and isinstance(r, ast.GeneratorExp) and len(r.generators) == 1 and not r.generators[0].is_async:
+            cmp_ = _loc(ast.Compare(left=r.elt, ops=[ast.Eq()], comparators=[l]), node)
+            call = _loc(ast.Call(func=_loc(ast.Name(id="any", ctx=ast.Load()), node), args=[_loc(ast.GeneratorExp(elt=cmp_, generators=r.generators), node)], keywords=[]), node)
+            ast.fix_missing_locations(call)
+            return call if isinstance(op, ast.In) else _loc(ast.UnaryOp(op=ast.Not(), operand=call), node)
         # sentinels: identical only to themselves
         S_ = _SENTINELS[-1]
         if S_ and isinstance(op, (ast.Is, ast.IsNot)):
@@ -795,6 +801,57 @@ def _loop_over_filter(s):
     return new
 
 
+def _zip_with_map(it):
+    """zip(X, (f(m) for m in X)) with X a plain name  ==  ((m, f(m)) for m in X)"""
+    if isinstance(it, ast.Call) and isinstance(it.func, ast.Name) and it.func.id == "zip" and len(it.args) == 2 and not it.keywords and isinstance(it.args[0], ast.Name):
+        g = it.args[1]
+        if isinstance(g, ast.GeneratorExp) and len(g.generators) == 1 and not g.generators[0].ifs and not g.generators[0].is_async and isinstance(g.generators[0].target, ast.Name) and isinstance(g.generators[0].iter, ast.Name) and g.generators[0].iter.id == it.args[0].id:
+            v = g.generators[0].target
+            pair = _loc(ast.Tuple(elts=[_loc(ast.Name(id=v.id, ctx=ast.Load()), it), g.elt], ctx=ast.Load()), it)
+            new = _loc(ast.GeneratorExp(elt=pair, generators=[ast.comprehension(target=v, iter=it.args[0], ifs=[], is_async=0)]), it)
+            ast.fix_missing_locations(new)
+            return new
+    return it
+
+
+def _loop_over_genexp(s):
+    """`for T in (E for V in X): S`  ==  `for V in X: T = E; S`, and the same under enumerate (no filter: the count is the
+    position in X).  V must not be a name the loop body or target already uses."""
+    if s.orelse and False:
+        return s
+    it = s.iter
+    enum = False
+    tgt = s.target
+    if isinstance(it, ast.Call) and isinstance(it.func, ast.Name) and it.func.id == "enumerate" and len(it.args) == 1 and not it.keywords and isinstance(tgt, ast.Tuple) and len(tgt.elts) == 2:
+        enum = True
+        it = it.args[0]
+        tgt = s.target.elts[1]
+    it = _zip_with_map(it)
+    if not (isinstance(it, ast.GeneratorExp) and len(it.generators) == 1 and not it.generators[0].is_async and not it.generators[0].ifs):
+        return s
+    g = it.generators[0]
+    if isinstance(it.elt, ast.Name) and isinstance(g.target, ast.Name) and it.elt.id == g.target.id:
+        return s  # handled (or trivially the same) elsewhere
+    if any(isinstance(x, (ast.Lambda, ast.GeneratorExp, ast.ListComp, ast.SetComp, ast.DictComp, ast.NamedExpr, ast.Yield, ast.YieldFrom, ast.Await)) for x in ast.walk(it.elt)):
+        inner_ok = all(not isinstance(x, (ast.Lambda, ast.NamedExpr, ast.Yield, ast.YieldFrom, ast.Await)) for x in ast.walk(it.elt))
+        if not inner_ok:
+            return s
+    vnames = {n.id for n in ast.walk(g.target) if isinstance(n, ast.Name)}
+    used = {n.id for st in s.body + s.orelse for n in ast.walk(st) if isinstance(n, ast.Name)} | {n.id for n in ast.walk(s.target) if isinstance(n, ast.Name)}
+    if vnames & used:
+        return s
+    vt = copy.deepcopy(g.target)
+    for n in ast.walk(vt):
+        if isinstance(n, (ast.Name, ast.Tuple, ast.List)):
+            n.ctx = ast.Store()
+    bind = _loc(ast.Assign(targets=[tgt], value=it.elt), s)
+    new_target = _loc(ast.Tuple(elts=[s.target.elts[0], vt], ctx=ast.Store()), s) if enum else vt
+    new_iter = _loc(ast.Call(func=_loc(ast.Name(id="enumerate", ctx=ast.Load()), s), args=[g.iter], keywords=[]), s) if enum else g.iter
+    new = _loc(ast.For(target=new_target, iter=new_iter, body=[bind] + list(s.body), orelse=list(s.orelse), type_comment=None), s)
+    ast.fix_missing_locations(new)
+    return new
+
+
 def _exitstack_rollback(s):
     """the try/except-BaseException form of an ExitStack that is armed with callbacks first, disarmed with pop_all() last and not
     otherwise touched; None when the statement is not of that form"""
@@ -872,6 +929,32 @@ def _thread_try_sentinel(stmts):
 def _not_a_sentinel_value(e, sentinels):
     """the expression could itself be one of the sentinels (a plain name that is one)"""
     return isinstance(e, ast.Name) and e.id in sentinels
+
+
+def _split_chained_assigns(stmts):
+    """`n = self.a = E` (one target a plain name that the other targets do not mention)  ==  `n = E; self.a = n`:
+    binding a local first cannot be observed by the stores that follow"""
+    out = []
+    for st in stmts:
+        if isinstance(st, ast.Assign) and len(st.targets) > 1 and not (len(st.targets) == 2 and any(isinstance(t, ast.Attribute) and isinstance(t.value, ast.Name) and t.value.id == "self" for t in st.targets)):
+            # (a local chained with a field of self is the mirror idiom: kept as it is, sa/shapes.py and the rules read it)
+            names = [t for t in st.targets if isinstance(t, ast.Name)]
+            pick = None
+            for t in names:
+                others = [o for o in st.targets if o is not t]
+                if not any(isinstance(n, ast.Name) and n.id == t.id for o in others for n in ast.walk(o)) and not any(isinstance(n, ast.Name) and n.id == t.id for n in ast.walk(st.value)):
+                    pick = t
+                    break
+            if pick is not None:
+                out.append(_loc(ast.Assign(targets=[pick], value=st.value), st))
+                for o in st.targets:
+                    if o is not pick:
+                        out.append(_loc(ast.Assign(targets=[o], value=_loc(ast.Name(id=pick.id, ctx=ast.Load()), st)), st))
+                for x in out[-len(st.targets):]:
+                    ast.fix_missing_locations(x)
+                continue
+        out.append(st)
+    return out
 
 
 def _split_dict_merge(stmts):
@@ -987,6 +1070,33 @@ def _split_tuple_assigns(stmts):
                 if not pairs:
                     out.append(_loc(ast.Pass(), s))
                 continue
+        # `*_, a = s.split(sep)` is `a = s.split(sep)[-1]`, `a, *_ = s.split(sep)` is `a = s.split(sep)[0]` (a split on an
+        # explicit separator has at least one piece: neither form can fail)
+        if isinstance(s, ast.Assign) and len(s.targets) == 1 and isinstance(s.targets[0], (ast.Tuple, ast.List)) and len(s.targets[0].elts) == 2 and isinstance(s.value, ast.Call) and isinstance(s.value.func, ast.Attribute) and s.value.func.attr in ("split", "rsplit") and s.value.args and not s.value.keywords:
+            e0, e1 = s.targets[0].elts
+            star, keep, idx = (e0, e1, -1) if isinstance(e0, ast.Starred) else ((e1, e0, 0) if isinstance(e1, ast.Starred) else (None, None, None))
+            if star is not None and isinstance(star.value, ast.Name) and star.value.id.startswith("_") and isinstance(keep, ast.Name) and len(s.value.args) == 1:
+                ix = _loc(ast.Constant(value=0), s) if idx == 0 else _loc(ast.UnaryOp(op=ast.USub(), operand=_loc(ast.Constant(value=1), s)), s)
+                out.append(_loc(ast.Assign(targets=[keep], value=_loc(ast.Subscript(value=s.value, slice=ix, ctx=ast.Load()), s)), s))
+                ast.fix_missing_locations(out[-1])
+                continue
+        # the same with fields of an object among the targets and only names / constants / plain attributes on the right:
+        # nothing is evaluated on the right, the stores happen in the same order
+        if isinstance(s, ast.Assign) and len(s.targets) == 1 and isinstance(s.targets[0], ast.Tuple) and isinstance(s.value, ast.Tuple) and len(s.targets[0].elts) == len(s.value.elts) and any(isinstance(t, ast.Attribute) for t in s.targets[0].elts):
+            def _plain(e):
+                return isinstance(e, (ast.Name, ast.Constant)) or isinstance(e, ast.Attribute) and isinstance(e.value, ast.Name)
+            ts, vs = s.targets[0].elts, s.value.elts
+            if all(isinstance(t, ast.Name) or (isinstance(t, ast.Attribute) and isinstance(t.value, ast.Name)) for t in ts) and all(_plain(v) for v in vs):
+                pairs = [(t, v) for t, v in zip(ts, vs) if ast.unparse(t) != ast.unparse(v)]
+                ttexts = [ast.unparse(t) for t, _ in pairs]
+                tbases = {t.id for t, _ in pairs if isinstance(t, ast.Name)}
+                vtexts = {ast.unparse(v) for _, v in pairs} | {v.value.id for _, v in pairs if isinstance(v, ast.Attribute)} 
+                if len(set(ttexts)) == len(ttexts) and not (set(ttexts) & vtexts) and not (tbases & vtexts):
+                    for t, v in pairs:
+                        out.append(_loc(ast.Assign(targets=[t], value=v), s))
+                    if not pairs:
+                        out.append(_loc(ast.Pass(), s))
+                    continue
         # `(v,) = unpack(<one-item format>, X)` -> `v = unpack(<fmt>, X)[0]`  (the result has exactly one item)
         if isinstance(s, ast.Assign) and len(s.targets) == 1 and isinstance(s.targets[0], (ast.Tuple, ast.List)) and len(s.targets[0].elts) == 1 and isinstance(s.targets[0].elts[0], ast.Name) and _one_item_unpack(s.value):
             out.append(_loc(ast.Assign(targets=[s.targets[0].elts[0]], value=_loc(ast.Subscript(value=s.value, slice=_loc(ast.Constant(value=0), s), ctx=ast.Load()), s)), s))
@@ -1012,6 +1122,9 @@ def _strip_annotations(stmts):
         if isinstance(s, ast.AnnAssign) and isinstance(s.target, ast.Name):
             if s.value is None:
                 continue
+            out.append(_loc(ast.Assign(targets=[s.target], value=s.value), s))
+        elif isinstance(s, ast.AnnAssign) and isinstance(s.target, (ast.Attribute, ast.Subscript)) and s.value is not None:
+            # `self.x: T = v` is `self.x = v` (the annotation of an attribute target is not even evaluated ... stored)
             out.append(_loc(ast.Assign(targets=[s.target], value=s.value), s))
         else:
             out.append(s)
@@ -1544,6 +1657,8 @@ def canon_block(stmts):
     stmts = _thread_search_loop(stmts)
     stmts = _expand_walrus(stmts)
     stmts = _expand_ifexp(stmts)
+    if any(isinstance(x, ast.Assign) and len(x.targets) > 1 for x in stmts):
+        stmts = _split_chained_assigns(stmts)
     stmts = _split_tuple_assigns(stmts)
     stmts = _split_dict_merge(stmts)
     if any(isinstance(getattr(x, "value", None), ast.Call) and ast.unparse(x.value.func) in ("next", "reduce", "functools.reduce") for x in stmts):
@@ -2870,12 +2985,34 @@ def _canon_stmt(s):
         shell = _loc(ast.If(test=_loc(ast.Constant(value=True), s), body=loops, orelse=[]), s)
         ast.fix_missing_locations(shell)
         return _canon_stmt(shell)
+    elif isinstance(s, ast.Expr) and isinstance(s.value, ast.YieldFrom) and isinstance(s.value.value, ast.GeneratorExp) and len(s.value.value.generators) == 1 and not s.value.value.generators[0].is_async:
+        # yield from (E for T in X if C)  ==  for T in X: if C: yield E      (a generator expression is as lazy as the loop)
+        g_ = s.value.value
+        gen = g_.generators[0]
+        inner = [_loc(ast.Expr(value=_loc(ast.Yield(value=g_.elt), s)), s)]
+        for c_ in reversed(gen.ifs):
+            inner = [_loc(ast.If(test=c_, body=inner, orelse=[]), s)]
+        loop = _loc(ast.For(target=gen.target, iter=gen.iter, body=inner, orelse=[], type_comment=None), s)
+        for n_ in ast.walk(loop.target):
+            if isinstance(n_, ast.Name):
+                n_.ctx = ast.Store()
+        ast.fix_missing_locations(loop)
+        return _canon_stmt(loop)
     elif isinstance(s, (ast.For, ast.AsyncFor, ast.While)):
         if isinstance(s, ast.For):
             # for T in iter(X)  ==  for T in X
             if isinstance(s.iter, ast.Call) and isinstance(s.iter.func, ast.Name) and s.iter.func.id == "iter" and len(s.iter.args) == 1 and not s.iter.keywords:
                 s.iter = s.iter.args[0]
             s = _loop_over_filter(s)
+            for _ in range(3):
+                s2 = _loop_over_genexp(s)
+                if s2 is s:
+                    break
+                s = s2
+            # for _ in repeat(x, n) with the variable unused  ==  for _ in range(n)
+            it_ = s.iter
+            if isinstance(it_, ast.Call) and ast.unparse(it_.func) in ("repeat", "itertools.repeat") and len(it_.args) == 2 and not it_.keywords and isinstance(it_.args[0], (ast.Constant, ast.Name)) and isinstance(s.target, ast.Name) and not any(isinstance(n_, ast.Name) and n_.id == s.target.id for st_ in s.body + s.orelse for n_ in ast.walk(st_)):
+                s.iter = _loc(ast.Call(func=_loc(ast.Name(id="range", ctx=ast.Load()), it_), args=[it_.args[1]], keywords=[]), it_)
         s.body = canon_block(s.body)
         s.body = canon_block(_strip_tail_continue(s.body))
         s.orelse = canon_block(s.orelse)
